@@ -177,7 +177,8 @@ class Recorder:
     def _finish(self, ev, recv=None, others=(), ret=None, desc=None):
         if recv is not None:
             ev["recvpost"] = project(recv)
-        ev["otherspost"] = [project(o) for o in others]
+        # an operand that IS the receiver is not an "operand other than the receiver": nothing is claimed about it
+        ev["otherspost"] = [ev["others"][j] if (o is recv and recv is not None) else project(o) for j, o in enumerate(others)]
         if ret is not None:
             ev["ret"] = ret
         self.events.append(ev)
@@ -243,14 +244,19 @@ class Recorder:
         self._call(ev, lambda: idx.append(other))
         self._finish(ev, recv=idx, others=[other], desc=("append", repr(other)[:300]))
 
-    def update(self, idx, cells, as_lists=False):
+    def update(self, idx, cells, as_lists=False, as_index=None):
+        """as_index: the cells are handed over as an iindex object (another index of the same shape, or idx itself)"""
+        if as_index is not None:
+            cells = {k: np.asarray(r).tolist() for k, r in dict.items(as_index)}
         args = {"cells": [{"k": [V(k[0])] + list(k[1:]), "rows": list(map(int, r))} for k, r in cells.items()]}
-        ev = self._ev("update", recv=idx, args=args)
-        arg = {k: (list(r) if as_lists else np.array(r, dtype=np.uint32)) for k, r in cells.items()}
-        before = digest(arg)
+        others = [as_index] if as_index is not None else []
+        ev = self._ev("update", recv=idx, others=others, args=args)
+        arg = as_index if as_index is not None else {k: (list(r) if as_lists else np.array(r, dtype=np.uint32)) for k, r in cells.items()}
+        before = digest(dict(arg)) if as_index is not idx or as_index is None else None
         self._call(ev, lambda: idx.update(arg))
-        ev["memsame"] = digest(arg) == before
-        self._finish(ev, recv=idx, desc=("update", {str(k): list(v) for k, v in cells.items()}))
+        ev["memsame"] = before is None or digest(dict(arg)) == before
+        self._finish(ev, recv=idx, others=others, desc=("update", {str(k): list(v) for k, v in cells.items()},
+                                                         "cells given as an index object" + (" (the receiver itself)" if as_index is idx else "") if as_index is not None else ""))
 
     def set_update(self, idx, which, other, from_index=None):
         """other: list of (key, rows-or-None); from_index: an iindex operand instead of a dict"""
@@ -264,10 +270,10 @@ class Recorder:
         else:
             arg = {k: (None if r is None else (np.array(r, dtype=np.uint32) if (len(r) % 2) else list(r)))
                    for k, r in other}
-        before = digest(dict(arg) if from_index is None else 0)
+        before = digest(dict(arg) if from_index is not idx else 0)
         fn = {"union": idx.union_update, "inter": idx.intersection_update, "diff": idx.difference_update}[which]
         self._call(ev, lambda: fn(arg))
-        ev["memsame"] = digest(dict(arg) if from_index is None else 0) == before
+        ev["memsame"] = digest(dict(arg) if from_index is not idx else 0) == before
         self._finish(ev, recv=idx, others=others, desc=("set_update", which, [(list(k), r) for k, r in other]))
 
     # ---- transformed copies ------------------------------------------------------------------------
